@@ -678,7 +678,9 @@ def stale_actions(sim, calls, st):
         first_conn = min(conns) if conns else None
         for t in nets:
             if not (t.started_seq < o.r.inv and
-                    (t.ended_seq is None or t.ended_seq > o.r.ret)):
+                    (t.ended_seq is None or t.ended_seq > o.r.inv)):
+                # (still alive when the call began: it may act - and end -
+                # while the new session is being set up)
                 continue
             own_writes = {}
             for seq, tid, kind, d, vt in hist:
